@@ -1,15 +1,237 @@
-import Canopy.Proof.StoreIter
+import Canopy.Proof.StoreState
+import Canopy.Props.C19
 /-!
-# C10 — store read semantics and immutability of committed history  (work in progress: v0)
+# C10 — store read semantics and immutability of committed history
+
+*Spec* (`Canopy/Model/Store.lean`): a versioned map `m : VMap` = the set of committed writes
+`(key, version, value?)`; `readAt m v k` = the write to `k` with the greatest version ≤ `v`
+(`none` when absent or a deletion); `specView layers f` = the pending operations of every
+transaction layer applied on top of `f` (own writes visible, deletes hide); `IsScan f p rev out` =
+`out` is strictly ordered by key (ascending, or descending for `rev`) and contains exactly the pairs
+`(k, x)` with `p` a byte-prefix of `k` and `f k = some x` — i.e. complete, ordered, duplicate-free.
+
+*Implementation model* (same file, executable, run against the real `store.Store` on every check):
+the pebble key space as a sorted list of `userKey ++ ^version ↦ tombstone ++ value`;
+`VersionedStore.getRaw`; the `VersionedIterator` with its four strategies on a pebble cursor;
+`Txn` overlays nested arbitrarily with the `TxnIterator` merge; `Commit` (LSS at 2^64-1 + HSS at
+`version+1` + tombstone purge) as ONE batch; `NewReadOnly`; `Copy`; `Rollback`.
+
+*Hypothesis carried explicitly* — `WFKeys K`: every key the store is used with is non-empty,
+length-prefix decodable, at most 245 bytes, and **no key is a proper byte-prefix of another**; and
+`PfxOK K p`: no key is a *proper* prefix of an iteration prefix. This is exactly what makes all
+versions of one user key contiguous in the key space; `iter_wrong_without_WFKeys` shows it is
+necessary, `fsm_stored_keys_prefix_free` shows every stored FSM key family satisfies it.
 -/
 namespace Canopy.C10
 open Canopy Canopy.Store
 
-/-- all four `VersionedIterator` strategies yield one entry per user-key group -/
-theorem viter_groups (db : DB) (v : Nat) (hvm : v ≤ maxVer) (pfx : Bytes) (reverse seek : Bool)
-    (gs : List G) (hW : WFG gs) (hb : bound db pfx (prefixEnd pfx) = flat gs) :
-    (VS.mk db v).iter pfx reverse seek =
-      if reverse then gs.reverse.filterMap (G.pick v) else gs.filterMap (G.pick v) :=
-  VS.iter_groups db v hvm pfx reverse seek gs hW hb
+/-! ## every reachable state represents a versioned map -/
+
+/-- Starting from the empty store, any sequence of operations over keys of `K` leads to a state whose
+key space represents some versioned map `m` (`Inv`: under `h/` every committed write at its version,
+under `s/` the live keys of the current version; all pending layers sorted overlays). -/
+theorem reachable_inv (K : Bytes → Prop) (hK : WFKeys K) (ops : List Op) (hops : ∀ op ∈ ops, OpOK K op)
+    (hb : ops.length + 1 < maxVer) : ∃ m, Inv K (runOps {} ops) m := by
+  obtain ⟨m, hi, _⟩ := (Inv.init K).run hK ops hops (by simpa using hb) 0 (Nat.le_refl _)
+    (fun op _ => by cases op <;> simp [KeepsHistory])
+  exact ⟨m, hi⟩
+
+/-! ## point reads and iteration refine the versioned map -/
+
+/-- **`get_refines`** — the store and any nesting of `NewTxn()` transactions above it: a point read
+returns exactly the versioned map as of the current version with every pending layer applied. -/
+theorem get_refines (K : Bytes → Prop) (hK : WFKeys K) (s : State) (m : VMap) (hi : Inv K s m)
+    (k : Bytes) (hk : K k) :
+    s.handle.get k = some (specView s.main (readAt m s.version) k) :=
+  (hi.reads_main hK).get hK hi.main hk
+
+/-- **`iter_refines`** — forward and reverse prefix iteration through any nesting of transactions
+(merged `TxnIterator`s over whichever `VersionedIterator` strategy is in use) yields *the* scan of that
+same view: strictly ordered, complete, duplicate-free. -/
+theorem iter_refines (K : Bytes → Prop) (hK : WFKeys K) (s : State) (m : VMap) (hi : Inv K s m)
+    (p : Bytes) (hp : PfxOK K p) (hpk : keyOK p = true) (reverse : Bool) :
+    ∃ out, s.handle.iter p reverse = some out ∧
+      KeysSorted reverse (out.map (·.1)) ∧
+      ∀ k x, (k, x) ∈ out ↔ (hasPrefix p k = true ∧ specView s.main (readAt m s.version) k = some x) :=
+  (hi.reads_main hK).iter hK hi.main hp hpk reverse
+
+/-- the same for read-only views `NewReadOnly(v)`: they show the versioned map as of `v` -/
+theorem readOnly_refines (K : Bytes → Prop) (hK : WFKeys K) (s : State) (m : VMap) (hi : Inv K s m)
+    (v : Nat) (hv : v ≤ maxVer) :
+    (∀ k, K k → (s.readOnly v).get k = some (readAt m v k)) ∧
+    (∀ p reverse, PfxOK K p → keyOK p = true →
+      ∃ out, (s.readOnly v).iter p reverse = some out ∧ IsScan (readAt m v) p reverse out) :=
+  ⟨fun _ hk => hi.readOnly_get hK hv hk, fun _ reverse hp hpk => hi.readOnly_iter hK hv hp hpk reverse⟩
+
+/-- the same for store copies (`Store.Copy()`, which drops the `seek` flag and therefore runs the
+linear strategies) and held read-only views: each shows the versioned map of the snapshot it was
+taken from, with its own pending operations applied. -/
+theorem copy_refines (K : Bytes → Prop) (hK : WFKeys K) (s : State) (m : VMap) (hi : Inv K s m)
+    (h : Handle) (hh : h ∈ s.copies ++ s.held) :
+    ∃ m' v', (∀ k, K k → h.get k = some (specView h.layers (readAt m' v') k)) ∧
+      (∀ p reverse, PfxOK K p → keyOK p = true →
+        ∃ out, h.iter p reverse = some out ∧ IsScan (specView h.layers (readAt m' v')) p reverse out) := by
+  obtain ⟨⟨m', v', hr⟩, hl⟩ := hi.side h hh
+  exact ⟨m', v', fun _ hk => hr.get hK hl hk, fun _ reverse hp hpk => hr.iter hK hl hp hpk reverse⟩
+
+/-! ## what the view is: own writes visible, deletes hide, flush transparent, discarded work vanishes -/
+
+theorem own_write_visible (ov : Overlay) (rest : List Layer) (f : Bytes → Option Bytes) (k v : Bytes) (seek : Bool) :
+    specView ({ ov := smSet ov k (.set v), seek := seek } :: rest) f k = some v := by
+  simp [specView, applyOv_write, TOp.read]
+
+theorem delete_hides (ov : Overlay) (rest : List Layer) (f : Bytes → Option Bytes) (k : Bytes) (seek : Bool) :
+    specView ({ ov := smSet ov k .del, seek := seek } :: rest) f k = none := by
+  simp [specView, applyOv_write, TOp.read]
+
+theorem other_keys_untouched (ov : Overlay) (rest : List Layer) (f : Bytes → Option Bytes) (k k' : Bytes) (op : TOp)
+    (seek : Bool) (h : k' ≠ k) :
+    specView ({ ov := smSet ov k op, seek := seek } :: rest) f k' = specView ({ ov := ov, seek := seek } :: rest) f k' := by
+  simp [specView, applyOv_write, h]
+
+theorem flush_transparent {top below : Layer} {rest ls' : List Layer} (hs : SSorted top.ov)
+    (hf : flushLayers (top :: below :: rest) = some ls') (f : Bytes → Option Bytes) :
+    specView ls' f = specView (top :: below :: rest) f := specView_flush hs hf f
+
+theorem discarded_work_vanishes (top : Layer) (rest : List Layer) (f : Bytes → Option Bytes) :
+    specView ({ top with ov := [] } :: rest) f = specView rest f := specView_discard top rest f
+
+/-- a scan is determined by the view it scans -/
+theorem scan_unique {f : Bytes → Option Bytes} {p : Bytes} {reverse : Bool} {o1 o2 : List (Bytes × Bytes)}
+    (h1 : IsScan f p reverse o1) (h2 : IsScan f p reverse o2) : o1 = o2 := isScan_unique h1 h2
+
+/-! ## the physical layer: `VersionedStore.get` and all four iterator strategies -/
+
+/-- `VersionedStore.Get` on any well-formed key space (`WFL`: sorted, keys `userKey ++ ^version`, user
+keys prefix-free): the newest version ≤ the read version, tombstones hidden. -/
+theorem vget_refines (db : DB) (h : WFL db) (v : Nat) (hvm : v ≤ maxVer) (uk : Bytes) (hc : KeyCompat db uk) (x : Bytes) :
+    (VS.mk db v).get uk = some x ↔ Sees db v uk x := VS.get_sees db h v hvm uk hc x
+
+/-- **each of the four strategies** — `seek`/linear × forward/reverse — of the `VersionedIterator`
+(`first`, `advanceToNextKey`, `rewindToLatestVersion`, `step` on a pebble cursor), for **every**
+version layout: the output is strictly ordered and contains exactly the user keys under the prefix
+whose newest version ≤ the read version is alive, each once. -/
+theorem viter_refines (db : DB) (h : WFL db) (v : Nat) (hvm : v ≤ maxVer) (pfx : Bytes) (hq : PrefixCompat db pfx)
+    (reverse seek : Bool) :
+    KeysSorted reverse (((VS.mk db v).iter pfx reverse seek).map (·.1)) ∧
+    ∀ uk x, (uk, x) ∈ (VS.mk db v).iter pfx reverse seek ↔ (hasPrefix pfx uk = true ∧ Sees db v uk x) :=
+  VS.iter_sees db h v hvm pfx hq reverse seek
+
+/-- the strategies agree with each other: seek and linear give the same list, reverse gives the
+reversed list -/
+theorem strategies_agree (db : DB) (h : WFL db) (v : Nat) (hvm : v ≤ maxVer) (pfx : Bytes) (hq : PrefixCompat db pfx)
+    (reverse : Bool) : (VS.mk db v).iter pfx reverse true = (VS.mk db v).iter pfx reverse false := by
+  have a := VS.iter_sees db h v hvm pfx hq reverse true
+  have b := VS.iter_sees db h v hvm pfx hq reverse false
+  exact sorted_mem_unique reverse _ _ a.1 b.1 fun e => by obtain ⟨k, x⟩ := e; rw [a.2, b.2]
+
+/-! ## committed history is immutable; LSS = HSS -/
+
+/-- **`history_immutable`** — for every `v` ≤ the committed version and every later sequence of
+writes, deletes, nested transactions, flushes, discards, copies, commits, and rollbacks to heights
+≥ `v`: every point read and every forward/reverse prefix iteration of a read-only view at `v` returns
+what it returned before. -/
+theorem history_immutable (K : Bytes → Prop) (hK : WFKeys K) (s : State) (m : VMap) (hi : Inv K s m)
+    (ops : List Op) (hops : ∀ op ∈ ops, OpOK K op) (hver : s.version + ops.length + 1 < maxVer)
+    (v : Nat) (hv : v ≤ s.version) (hkeep : ∀ op ∈ ops, KeepsHistory v op) :
+    (∀ k, K k → ((runOps s ops).readOnly v).get k = (s.readOnly v).get k) ∧
+    (∀ p reverse, PfxOK K p → keyOK p = true →
+      ((runOps s ops).readOnly v).iter p reverse = (s.readOnly v).iter p reverse) :=
+  hi.history hK ops hops hver v hv hkeep
+
+/-- the spec-level content of `history_immutable`: a commit adds only a newer version, a rollback to
+`t ≥ v` removes only versions above `v` -/
+theorem readAt_stable_commit {m : VMap} {ov : Overlay} {ver : Nat} (hu : Uniq m) (hb : VersBound m ver)
+    (hs : SSorted ov) {v : Nat} (hv : v ≤ ver) (k : Bytes) :
+    readAt (m.commit ov (ver + 1)) v k = readAt m v k := readAt_commit_old hu hb hs hv k
+
+theorem readAt_stable_rollback {m : VMap} (hu : Uniq m) {t v : Nat} (hv : v ≤ t) (k : Bytes) :
+    readAt (m.rollback t) v k = readAt m v k := readAt_rollback hu hv k
+
+/-- **`lss_eq_hss`** — in every reachable state the latest-state partition (what the store itself and
+`NewReadOnly(version)` read: `s/` at version 2^64-1, tombstones purged, patched by `Rollback`) shows
+exactly what the historical partition shows at the current version (`h/` read at `version`): the two
+stores never diverge. -/
+theorem lss_eq_hss (K : Bytes → Prop) (hK : WFKeys K) (s : State) (m : VMap) (hi : Inv K s m) :
+    let lss : Handle := { snap := s.db, rver := maxVer, pfx := lssPrefix, layers := [{}] }
+    let hss : Handle := { snap := s.db, rver := s.version, pfx := hssPrefix, layers := [{}] }
+    (∀ k x, Sees s.db maxVer (lssPrefix ++ k) x ↔ Sees s.db s.version (hssPrefix ++ k) x) ∧
+    (∀ k, K k → lss.get k = hss.get k) ∧
+    (∀ p reverse, PfxOK K p → keyOK p = true → lss.iter p reverse = hss.iter p reverse) := by
+  have hvm : s.version ≤ maxVer := by have := hi.rep.ver_lt; omega
+  have rl := hi.rep.reads_lss hK [{}]
+  have rh := hi.rep.reads_hss hK hvm [{}]
+  refine ⟨fun k x => by rw [hi.rep.sees_lss, hi.rep.sees_hss], ?_, ?_⟩
+  · intro k hk
+    rw [rl.get hK (layersOK_empty K) hk, rh.get hK (layersOK_empty K) hk]
+  · intro p reverse hp hpk
+    obtain ⟨o1, h1, s1⟩ := rl.iter hK (layersOK_empty K) hp hpk reverse
+    obtain ⟨o2, h2, s2⟩ := rh.iter hK (layersOK_empty K) hp hpk reverse
+    rw [h1, h2, isScan_unique s1 s2]
+
+/-! ## `WFKeys` is necessary, and the real key families satisfy it -/
+
+/-- the witness replayed on the real store by the Go driver (`harness/c10`, case
+`witness-key-is-prefix-of-key`): keys `0161`, `01610162`, `01610163` — the first a byte-prefix of the
+others — written and committed. -/
+def witnessDb : DB :=
+  applyBatch [] (commitBatch
+    (smSet (smSet (smSet [] [1, 97] (.set [0x11])) [1, 97, 1, 98] (.set [0x22])) [1, 97, 1, 99] (.set [0x33])) 1)
+
+/-- **without `WFKeys` iteration is wrong**: forward seek iteration over the latest state yields only
+`0161` (it seeks to `prefixEnd(0161)`, past every key that extends it); the historical view yields
+the three keys out of byte order; reverse seek over the historical view yields only `0161`. The
+versioned map holds all three. -/
+theorem iter_wrong_without_WFKeys :
+    (VS.mk witnessDb maxVer).iter (lssPrefix ++ [1, 97]) false true = [(lssPrefix ++ [1, 97], [0x11])] ∧
+    ((VS.mk witnessDb 1).iter (hssPrefix ++ [1, 97]) false true).map (·.1) =
+      [hssPrefix ++ [1, 97, 1, 98], hssPrefix ++ [1, 97, 1, 99], hssPrefix ++ [1, 97]] ∧
+    (VS.mk witnessDb 1).iter (hssPrefix ++ [1, 97]) true true = [(hssPrefix ++ [1, 97], [0x11])] ∧
+    (VS.mk witnessDb 1).get (hssPrefix ++ [1, 97, 1, 98]) = some [0x22] := by
+  decide +kernel
+
+/-- the FSM keys that are actually stored (single-segment families are stored under their prefix) -/
+def Stored : C19.FsmKey → Prop
+  | .supplyPrefix | .lastProposersPrefix | .committeesDataPrefix => True
+  | .pool _ | .nonSigner _ | .order _ _ | .unstaking _ _ | .paused _ _ | .committee _ _ _
+  | .delegate _ _ _ | .retiredCommittee _ | .account _ | .validator _ | .lockedBatch _ | .nextBatch _ => True
+  | _ => False
+
+/-- **the real key shapes guarantee `WFKeys`**: every stored FSM key family has a fixed number of
+length-prefixed segments, so (over the builders regenerated from `fsm/key.go`) no stored key is a
+proper byte-prefix of another. -/
+theorem fsm_stored_keys_prefix_free (k1 k2 : C19.FsmKey) (h1 : Stored k1) (h2 : Stored k2)
+    (w1 : k1.WF) (w2 : k2.WF) (hp : k1.encode <+: k2.encode) : k1.encode = k2.encode := by
+  have hs := C19.FsmKey.prefix_range k1 k2 w1 w2 hp
+  rw [C19.FsmKey.encode_eq, C19.FsmKey.encode_eq]
+  congr 1
+  cases k1 <;> cases k2 <;> simp_all [Stored, C19.FsmKey.segs, List.cons_prefix_cons]
+
+/-! ## non-vacuity -/
+
+/-- a two-key universe satisfying `WFKeys` -/
+def K2 : Bytes → Prop := fun k => k = [1, 97] ∨ k = [1, 98]
+
+theorem K2_wf : WFKeys K2 where
+  ok := by
+    rintro k (rfl | rfl) <;> simp [keyOK, decodeLenPrefixed]
+  pf := by
+    rintro a b (rfl | rfl) (rfl | rfl) h <;> simp [List.cons_prefix_cons] at h ⊢
+
+example : PfxOK K2 [1] := by
+  rintro k (rfl | rfl) h <;> simp [List.cons_prefix_cons] at h
+
+set_option linter.unusedSimpArgs false in
+/-- the hypotheses of `history_immutable` are satisfiable with a non-trivial history: two commits, a
+delete, a nested transaction — and the read at version 1 is indeed unchanged -/
+example :
+    let s1 := runOps {} [.set [1, 97] [5], .commit]
+    let ops : List Op := [.del [1, 97], .set [1, 98] [6], .commit, .nest, .set [1, 97] [7], .flush, .pop, .commit]
+    (∃ m, Inv K2 s1 m) ∧ (∀ op ∈ ops, OpOK K2 op) ∧ (∀ op ∈ ops, KeepsHistory 1 op) ∧
+    (s1.readOnly 1).get [1, 97] = some (some [5]) ∧ ((runOps s1 ops).readOnly 1).get [1, 97] = some (some [5]) ∧
+    ((runOps s1 ops).readOnly 2).get [1, 97] = some none ∧ ((runOps s1 ops).readOnly 3).get [1, 97] = some (some [7]) := by
+  refine ⟨reachable_inv K2 K2_wf _ (by simp [OpOK, K2]) (by decide), by simp [OpOK, K2], by simp [KeepsHistory], ?_, ?_, ?_, ?_⟩
+  all_goals simp [runOps, State.apply, State.readOnly, Handle.get, Handle.get.go, keyOK, decodeLenPrefixed]
+  all_goals decide +kernel
 
 end Canopy.C10
